@@ -19,6 +19,7 @@ import (
 	"path"
 
 	"github.com/emitter-io/emitter/internal/event/crdt"
+	"github.com/emitter-io/emitter/internal/message"
 	"github.com/golang/snappy"
 	"github.com/kelindar/binary"
 	"github.com/weaveworks/mesh"
@@ -60,7 +61,7 @@ func DecodeState(buf []byte) (out *State, err error) {
 
 	// Decode the state, while decoding it can only be volatile (as per use-case)
 	decoded := make(map[uint8]crdt.Volatile)
-	if buf, err = snappy.Decode(nil, buf); err == nil {
+	if buf, err = message.DecodeBlock(buf); err == nil {
 		err = binary.Unmarshal(buf, &decoded)
 	}
 
